@@ -341,6 +341,48 @@ func checkC16(c *Ctx, r *Report) {
 			}
 		}
 	}
+	// the accepted request is entered in both windows, and the windows are pruned before they are measured
+	if acc := r5.need(acceptK); acc != nil {
+		var trues []ssa.Instruction
+		for _, ret := range returnsOf(acc) {
+			if b, ok := constBool(resolveLoad(strip(retVal(ret, 0)))); ok && b {
+				trues = append(trues, ret)
+			}
+		}
+		isAppendTo := func(field string) func(ssa.Instruction) bool {
+			return func(in ssa.Instruction) bool {
+				if !isFieldWrite(in, rlT+"."+field) {
+					return false
+				}
+				var val ssa.Value
+				switch x := in.(type) {
+				case *ssa.Store:
+					val = x.Val
+				case *ssa.MapUpdate:
+					val = x.Value
+				default:
+					return false
+				}
+				return derivesFrom(val, func(v ssa.Value) bool { return isResultOfCall(v, 0, "builtin.append") != nil })
+			}
+		}
+		for _, fld := range []string{"reqs", "peerReqs"} {
+			w, n := (&Cut{Fn: acc, Target: inSet(trues), Sep: func(in ssa.Instruction) bool { return passesLike(in, isAppendTo(fld), 2) }}).Run(c)
+			r5.Check(w == "" && len(trues) >= 1, acceptK+": an accepted request is appended to "+fld, acc.Pos(), n+1, "", "the window never fills: the cap it measures is never reached", w)
+		}
+	}
+	for _, k := range []string{acceptK, acceptDDK} {
+		acc := r5.need(k)
+		if acc == nil {
+			continue
+		}
+		cleans := findInstrs(acc, callPred("(*"+an2+".rateLimiter).cleanup"))
+		w, n := (&Cut{Fn: acc, Sep: inSet(cleans), EdgeCut: edgeBool(isLoadOfField(rlT+".closed"), true), Target: func(in ssa.Instruction) bool {
+			_, ok := in.(*ssa.Return)
+			return ok
+		}}).Run(c)
+		r5.Check(w == "" && len(cleans) >= 1, k+": the windows are pruned before they are measured", acc.Pos(), n+1, "", "requests older than a minute keep counting: after a burst the server refuses everybody for good", w)
+	}
 	if acc := r5.need(acceptDDK); acc != nil {
 		isDDAppend := func(in ssa.Instruction) bool {
 			st, ok := in.(*ssa.Store)
